@@ -176,6 +176,22 @@ func GenMailbox(r *rand.Rand, allowUTF8 bool) (Mailbox, LocalKind) {
 	return Mailbox{GenLocal(r, k), d}, k
 }
 
+// QuoteNeedLocals: local parts that are not a dot-atom, one per reason (leading / trailing blank, TAB, dots,
+// every special).  Stored unquoted in mail.Address.Address; whoever re-serialises an address without
+// Address.String() changes or breaks them.
+var QuoteNeedLocals = []string{" admin", "admin ", "\tadmin", "a..b", ".a", "a.", "a(b", "a)b", "a,b", "a:b", "a;b", "a<b", "a>b", "a@b",
+	"a[b", "a]b", "a\\b", "a\"b", "two words", " "}
+
+// BareAddrSpec writes mb WITHOUT display name (addr-spec, or addr-spec in angle brackets), the local part as
+// quoted-string where needed.
+func BareAddrSpec(r *rand.Rand, mb Mailbox) string {
+	spec := RenderLocal(r, mb.Local) + "@" + mb.Domain
+	if r.Intn(2) == 0 {
+		return "<" + spec + ">"
+	}
+	return spec
+}
+
 // RenderLocal writes a local part in RFC 5322 syntax (dot-atom where possible unless forced).
 func RenderLocal(r *rand.Rand, local string) string {
 	if IsDotAtom(local, true) && r.Intn(5) != 0 {
@@ -251,7 +267,8 @@ func RenderAddress(r *rand.Rand, mb Mailbox) (string, string, int) {
 		return QuoteName(n) + " <" + spec + ">", n, k
 	default:
 		n := pick(r, HardNames)
-		if r.Intn(2) == 0 {
+		// a Q encoded-word must not hold raw specials (RFC 2047 section 5 (3)), and mime.QEncoding leaves pure ASCII alone
+		if r.Intn(2) == 0 || strings.ContainsAny(n, "\"\\(),") || !QBackslashNameNeedsEncoding(n) {
 			return mime.BEncoding.Encode("utf-8", n) + " <" + spec + ">", n, k
 		}
 		return mime.QEncoding.Encode("utf-8", n) + " <" + spec + ">", n, k
@@ -269,6 +286,16 @@ func QBackslashName(n string) bool {
 		}
 	}
 	return needs && strings.Contains(n, "\\") && !strings.ContainsAny(n, "\"#$%&'(),.:;<>@[]^`{|}~")
+}
+
+// QBackslashNameNeedsEncoding: the name has a byte outside SP..~ / TAB.
+func QBackslashNameNeedsEncoding(n string) bool {
+	for i := 0; i < len(n); i++ {
+		if b := n[i]; !(b >= 32 && b <= 126 || b == 9) {
+			return true
+		}
+	}
+	return false
 }
 
 // QBackslashNames: members of that class for the generators.
